@@ -1,5 +1,6 @@
 """shared generator for the future/promise cell scenarios (C01, C02)"""
-import itertools, random
+import itertools, os, random, tempfile
+import vlib
 from vlib import Case
 
 ENGINES = ["cell_int", "cell_void", "cell_uptr", "cell_ref", "cell_cnt"]
@@ -15,7 +16,7 @@ def mk(engine, name, resolvers, waiters, sched, order=None):
 
 def gen(seed, tier, focus):
     rng = random.Random(seed * 1000003 + (101 if focus == "resolvers" else 202))
-    n = 500 if tier == "quick" else 6000
+    n = (500 if focus == "resolvers" else 1200) if tier == "quick" else (6000 if focus == "resolvers" else 4000)
     cases = []
     for i in range(n):
         eng = ENGINES[i % len(ENGINES)]
@@ -23,8 +24,8 @@ def gen(seed, tier, focus):
             nr = rng.choice([2, 2, 3, 3, 4]); nw = rng.choice([0, 0, 1, 1, 2])
         else:
             nr = rng.choice([0, 1, 1, 1, 2]); nw = rng.choice([1, 2, 2, 3, 3])
-        res = [(rng.choice([0, 0, 1, 2, 3]), rng.randint(1, 99)) for _ in range(nr)]
-        wai = [rng.choice([0, 1, 2, 3]) for _ in range(nw)]
+        res = [(rng.choice([0, 0, 1, 2, 3, 4, 4, 5]), rng.randint(1, 99)) for _ in range(nr)]
+        wai = [rng.choice([0, 1, 2, 3, 4]) for _ in range(nw)]
         order = list(range(nr + nw)); rng.shuffle(order)
         L = rng.choice([0, 4, 8, 12, 20, 30])
         style = rng.random()
@@ -37,7 +38,9 @@ def gen(seed, tier, focus):
         else:               # mostly last-enabled first
             sched = [rng.choice([5, 4, 3, 0]) for _ in range(L)]
         cases.append(mk(eng, "%s%d" % (focus[0], i), res, wai, sched, order))
-    if tier != "quick":
+    if tier != "quick" and focus == "waiters":
+        cases += exhaustive_2w1r()
+    if tier != "quick" and focus == "resolvers":
         # systematic: every schedule prefix of length 7 over 3 choices for small configurations
         cfgs = [([(0, 5), (1, 6)], [0]), ([(0, 5), (2, 0)], [1]), ([(0, 5)], [0, 2]), ([(3, 0), (0, 9)], [3]),
                 ([(0, 5)], [1, 1]), ([], [0, 1]), ([(1, 4), (0, 5), (2, 0)], [])]
@@ -48,7 +51,46 @@ def gen(seed, tier, focus):
     return cases
 
 
+def exhaustive_2w1r():
+    """every schedule of 2 waiters (all 15 unordered kind pairs) x 1 resolver (each of the 6 explicit kinds, or none =
+    the destructor of the shared promise resolves), enumerated by the extracted model itself (CellDefs.cell_enum)"""
+    cfgs = []
+    for r in [None, (0, 5), (1, 6), (2, 0), (3, 0), (4, 7), (5, 8)]:
+        for w1 in range(5):
+            for w2 in range(w1, 5):
+                cfgs.append((([r] if r else []), [w1, w2]))
+    enum = [Case("cell_enum", "e%d" % i, [[1, k, d] for (k, d) in res] + [[2, k] for k in wai])
+            for i, (res, wai) in enumerate(cfgs)]
+    fd, path = tempfile.mkstemp(prefix="cell_enum.", dir="/var/tmp"); os.close(fd)
+    try:
+        vlib.write_cases(enum, path)
+        scheds = vlib.modelrun(path)
+    finally:
+        os.remove(path)
+    out = []
+    for i, (res, wai) in enumerate(cfgs):
+        eng = ENGINES[i % len(ENGINES)]
+        for j, line in enumerate(scheds["e%d" % i]):
+            sched = [int(x) for x in line.split()][1:]
+            out.append(mk(eng, "a%d_%d" % (i, j), res, wai, sched))
+    return out
+
+
+def gen_stress(seed, tier):
+    """real-thread runs: op 30 trials wkind1 wkind2 rkind jitter (see harness/stress_cell.cpp)"""
+    rng = random.Random(seed * 7919 + 303)
+    trials = 3000 if tier == "quick" else 30000
+    cases = []
+    cfgs = [(1, 1, 0), (1, 2, 0), (2, 2, 0), (0, 2, 0), (0, 1, 4), (2, 1, 6), (1, 0, 2), (2, 0, 4)]
+    for j, (a, b, r) in enumerate(cfgs):
+        for jit in (0, 40, 400, 4000):
+            cases.append(Case("cell_stress", "s%d_%d" % (j, jit), [[30, trials + rng.randint(0, 9), a, b, r, jit]]))
+    return cases
+
+
 def nontrivial(case, model_obs):
+    if case.engine == "cell_stress":
+        return True
     # a schedule is non-trivial when at least two different threads take steps before the first one finishes,
     # i.e. the trace is not a concatenation of whole threads
     tids = [l.split()[0] for l in model_obs if len(l.split()) == 2]
@@ -57,6 +99,8 @@ def nontrivial(case, model_obs):
 
 
 def signature(case, impl_obs, model_obs):
+    if case.engine == "cell_stress":
+        return "cell:stress"
     last = impl_obs[-1] if impl_obs else ""
     if last.startswith("CRASH"):
         return "cell:" + last.split()[1]
